@@ -380,6 +380,40 @@ func (w *richSyncer) Close() error { w.others++; return nil }
 func (w *richSyncer) Stop() error  { w.others++; return nil }
 
 func wrappers(r *ev.Run) {
+	// multi-syncers over sinks that swallow everything: the count is still the smallest count a sink
+	// reported, which is len(p)
+	for k := 1; k <= 4; k++ {
+		for real := 0; real <= 1; real++ {
+			id := fmt.Sprintf("c13/discards/%d/%d", k, real)
+			if !r.Want(id) {
+				continue
+			}
+			var ws []zapcore.WriteSyncer
+			for j := 0; j < k; j++ {
+				ws = append(ws, zapcore.AddSync(io.Discard))
+			}
+			var rs *prog
+			if real == 1 {
+				rs = &prog{n: -1}
+				ws = append(ws[:k/2:k/2], append([]zapcore.WriteSyncer{rs}, ws[k/2:]...)...)
+			}
+			for _, m := range []zapcore.WriteSyncer{zapcore.NewMultiWriteSyncer(ws...), zap.CombineWriteSyncers(ws...)} {
+				p := []byte("0123456789")
+				n, err := m.Write(p)
+				r.Eval(1)
+				r.Distinct(fmt.Sprintf("discards|%d|%d|%T", k, real, m))
+				if n != len(p) || err != nil {
+					r.Violate(ev.Violation{Case: id, Class: "multi-count", Msg: fmt.Sprintf("a multi-syncer over %d AddSync(io.Discard) sinks (+%d recording sink) returned (%d, %v) for a %d-byte write every sink accepted in full", k, real, n, err, len(p))})
+				}
+				if serr := m.Sync(); serr != nil {
+					r.Violate(ev.Violation{Case: id, Class: "multi-sync", Msg: fmt.Sprintf("Sync over discarding sinks returned %v", serr)})
+				}
+			}
+			if rs != nil && (len(rs.got) != 2 || rs.syncs != 2) {
+				r.Violate(ev.Violation{Case: id, Class: "multi-bytes", Msg: fmt.Sprintf("the recording sink among discarding ones received %d writes and %d syncs, want 2 and 2", len(rs.got), rs.syncs)})
+			}
+		}
+	}
 	e1 := errors.New("boom")
 	for i, c := range []struct {
 		n   int
